@@ -56,7 +56,7 @@ def record(case, scratch, stats, fail_at=None):
         for op in case["ops"]:
             if op["op"] == "rule":
                 rules[op["anchor"]] = RX[op["rule"]]
-            if op["op"] == "clear" and op.get("rules") is not None:
+            if op["op"] in ("clear", "overwrite_open") and op.get("rules") is not None:
                 for a, r in op["rules"]:
                     rules[a] = RX[r]
             sut.apply(op)
